@@ -710,10 +710,10 @@ PLANS["X01"] = dict(
 
 PLANS["X03"] = dict(
     level_text="growth: which trust-policy file a configuration-based verifier is built from (file kinds, symlinks never followed, legacy fallback only for a missing oci file)",
-    level_note="not a listed property; unreadable files cannot be produced (the harness runs as root)", rule="8^3 directories x 4 operations", exhaustive=True,
+    level_note="not a listed property; unreadable files cannot be produced (the harness runs as root)", rule="8^3 directories x 4 operations (x 3 places of the trusted root for the constructors)", exhaustive=True,
     phases=[dict(
         name="policyfiles",
-        gen=dict(module="MC_PolicyFiles", cfg=mc_cfg(["Inv_RegularOnly", "Inv_ValidOnly", "Inv_Fallback", "Inv_Emit"]), select=take_all),
+        gen=dict(module="MC_PolicyFiles", cfg=mc_cfg(["Inv_RegularOnly", "Inv_ValidOnly", "Inv_Fallback", "Inv_Trust", "Inv_Emit"]), select=take_all),
         drive=dict(driver="policyfiles"),
         validate=dict(module="Trace_PolicyFiles", cfg=trace_cfg()),
     )],
